@@ -92,6 +92,15 @@ def check(ctx):
         for o, a in produce(ctx, "d4addr", ["-mode", "d4addr", "-seed", ctx.seed, "-reps", reps], 1):
             runner.run_job(ctx, _job(ctx, "d4addr", o, a))
             paths.append(o)
+        # on the listener that the real server.Start makes for a plain unicast address of this host (unbound): replies are
+        # pinned to the ARRIVAL interface (loopback for what this host sends to itself), not to the one that carries the address
+        pargs = ["-mode", "pinning", "-seed", ctx.seed]
+        pt = os.path.join(ctx.scratch.sub("pinning"), "pinning.ndjson")
+        core.run_harness(ctx.need_harness(), ["lifecycle"] + [str(a) for a in pargs] + ["-out", pt], ctx.scratch.dir, timeout=600)
+        runner.run_job(ctx, runner.TraceJob("pinning", "LifecycleTrace", pt, {"Lens": core.tla_set(["C15"])}, replay=_rerun(pargs, "lifecycle"),
+                                            boundary=lambda e: False, meta={"rerun_args": [str(a) for a in pargs], "family": "lifecycle", "module": "LifecycleTrace"}))
+        extra["start_listener_replies_checked"] = _count([pt], lambda e: e["ev"] == "pin4" and e["sent"])
+        extra["start_listener_on_other_interface_than_arrival"] = _count([pt], lambda e: e["ev"] == "pin4" and e["sent"] and e["listenif"] != e["arrived"])
         extra["replies"] = _count(paths, lambda e: e["ev"] == "d4" and e["out"]["sent"])
         extra["l2_replies"] = _count(paths, lambda e: e["ev"] == "d4" and e["out"]["l2"])
         extra["l2_frames_checked"] = _count(paths, lambda e: e["ev"] == "d4" and e["out"]["frame"])
@@ -134,6 +143,10 @@ def check(ctx):
         ctx.design("DispatchMC.tla", "DispatchMC_load.cfg")
         for o, a in produce(ctx, "chain", ["-mode", "chain", "-seed", ctx.seed, "-maxlen", 5], 1):
             runner.run_job(ctx, _job(ctx, "chain", o, a))
+            paths.append(o)
+        # the same chains (up to 3 / 4 handlers) with the server's log level at debug: what is logged changes nothing
+        for o, a in produce(ctx, "chain-debug", ["-mode", "chain", "-seed", ctx.seed + 5, "-maxlen", 3 if ctx.quick else 4, "-loglevel=debug"], 1):
+            runner.run_job(ctx, _job(ctx, "chain-debug", o, a))
             paths.append(o)
         for o, a in produce(ctx, "load", ["-mode", "load", "-seed", ctx.seed, "-maxlen", 3 if ctx.quick else 4], 1):
             runner.run_job(ctx, _job(ctx, "load", o, a))
